@@ -230,6 +230,45 @@ def run_silent_tcp(R):
     return vio, len(ids)
 
 
+def run_outcome_history(R, ka, hist):
+    """A history of requests on one Modbus/TCP protocol object, each ending in one of the ways a request can end (answered,
+    refused with an exception frame, never answered = retries exhausted, first transmission lost then answered): however
+    the earlier requests ended, every transmission carries a non-zero id different from the transmission before it."""
+    world.reset()
+    seen = []
+    cur = {'how': None, 'k': 0}
+
+    def plan(k, req, now):
+        try:
+            rq = wire.parse_tcp_request(req)
+        except wire.BadRequest:
+            return []
+        seen.append(rq['tx'])
+        cur['k'] += 1
+        how = cur['how']
+        if how == 'silent' or (how == 'lost-then-answered' and cur['k'] == 1):
+            return []
+        if how == 'refused':
+            return [(D0, ('data', wire.mbap(req[:2], rq['unit'], bytes([rq['fn'] | 0x80, 2]))))]
+        pdu = bytes([3, 2 * rq['count']]) + bytes(2 * rq['count'])
+        return [(D0, ('data', wire.mbap(req[:2], rq['unit'], pdu)))]
+    peer = PlanPeer(plan)
+    loop = KLoop(peer)
+    p = make_protocol('tcp', 1, R, ka)
+    for i, how in enumerate(hist):
+        cur['how'], cur['k'] = how, 0
+        loop.run(_exec(p.read_command(0x891C + i, 2), p))
+    vio = []
+    if any(a == b for a, b in zip(seen, seen[1:])):
+        vio.append(('tx-id-changes/after-ended-requests', f'requests ending {list(hist)} (retries {R}, keep-alive {ka}): ids on the wire {seen}'))
+    if 0 in seen:
+        vio.append(('tx-id-nonzero/after-ended-requests', f'requests ending {list(hist)}: ids {seen}'))
+    return vio, len(seen)
+
+
+OUTCOMES = ('answered', 'silent', 'refused', 'lost-then-answered')
+
+
 MIXED_CALLS = (('read_runtime_data', ()), ('read_setting', ('grid_export_limit',)), ('write_setting', ('grid_export_limit', 77)),
                ('read_sensor', ('vpv1',)), ('write_setting', ('eco_mode_2_switch', -1)))
 
@@ -627,7 +666,19 @@ def run(tier, seed, rep):
         ntx += n
         for clause, cause in vio:
             rep.add(f'{clause}/silent-peer', clause, dict(part='silent', R=R), dict(cause=cause))
-    cov = dict(evaluations=total + ntx + novl, distinct_nontrivial=total, overlapping_call_transmissions=novl,
+    import itertools
+    nhist = 0
+    for R in (0, 1, 2):
+        for ka in (False, True):
+            for k in (1, 2, 3):
+                for hist in itertools.product(OUTCOMES, repeat=k):
+                    vio, n = run_outcome_history(R, ka, hist)
+                    ntx += n
+                    nhist += 1
+                    for clause, cause in vio:
+                        rep.add(f'{clause}/retries={R}/last:{hist[-2] if k > 1 else "-"}', clause,
+                                dict(part='outcomes', R=R, ka=ka, hist=list(hist)), dict(cause=cause))
+    cov = dict(evaluations=total + ntx + novl, distinct_nontrivial=total, request_outcome_histories=nhist, overlapping_call_transmissions=novl,
                rule='every request is built by the real command classes and parsed back by the strict independent '
                     'parser (CRC recomputed bitwise, MBAP protocol id / length field, AA55 header / length byte / sum): '
                     'all unit addresses x boundary registers x boundary counts, all 65536 registers x {F7,7F} x {1,125}, '
@@ -690,5 +741,8 @@ def replay(r):
     if r['part'] == 'txhist':
         n, vio = tx_histories()
         return dict(transmissions=n, violations=vio[:5])
+    if r['part'] == 'outcomes':
+        vio, n = run_outcome_history(r['R'], r['ka'], tuple(r['hist']))
+        return dict(transmissions=n, violations=vio)
     vio, n = run_silent_tcp(r['R'])
     return dict(transmissions=n, violations=vio)
